@@ -65,12 +65,20 @@ theorem C17_final_exact (offered : List VerInfo) (v : VerS) (s : VerInfo)
   have := (C17_newest _ _ _ h).2.1
   simpa using this
 
-/-- among equally ranked allowed entries the first listed one is kept -/
-theorem C17_first_of_equal_rank (pre post : List VerInfo) (allowed : List VerS) (x v : VerInfo)
+/-- **C17_last_of_equal_rank.** Among equally ranked allowed entries (same precedence, differing only
+in build metadata, e.g. `2.0.0` and `2.0.0+build.5`) the LAST listed one is selected.  This is
+go-versions' `List.NewestInSet` over the stably sorted listing: it scans the sorted list from the end
+and replaces its candidate only by a strictly greater one, so of several allowed versions of maximal
+precedence the one the stable sort leaves last — the last listed — is kept.  Stated here: the last
+listed allowed entry of maximal rank (every allowed entry after it ranks strictly below it) is the
+one selected. -/
+theorem C17_last_of_equal_rank (pre post : List VerInfo) (allowed : List VerS) (x v : VerInfo)
     (h : selectVersion (pre ++ x :: post) allowed = some v) (hx : allowed.contains x.ver = true)
-    (hr : x.rank = v.rank) (hpre : ∀ u ∈ pre, allowed.contains u.ver = true → u.rank < x.rank) :
+    (hr : x.rank = v.rank) (hpost : ∀ u ∈ post, allowed.contains u.ver = true → u.rank < x.rank) :
     v = x := by
+  have hmax := (C17_newest _ _ _ h).2.2
   rw [selectVersion_eq_foldl, List.foldl_append, List.foldl_cons] at h
+  -- whatever the best of `pre` is, it does not outrank `x`, so `x` replaces it
   have hb : selStepL allowed (pre.foldl (selStepL allowed) none) x = some x := by
     cases hb : pre.foldl (selStepL allowed) none with
     | none => exact selStepL_none allowed x hx
@@ -78,27 +86,36 @@ theorem C17_first_of_equal_rank (pre post : List VerInfo) (allowed : List VerS) 
       obtain ⟨h1, _, _⟩ := selFold_some allowed pre none b hb
       rcases h1 with h1 | h1
       · cases h1
-      · exact selStepL_lt allowed b x hx (hpre b h1.1 h1.2)
+      · have : b.rank ≤ v.rank := hmax b (List.mem_append_left _ h1.1) h1.2
+        exact selStepL_le allowed b x hx (by omega)
   rw [hb] at h
-  -- from `some x` on, the fold only replaces the best by strictly greater ranks
-  have key : ∀ (l : List VerInfo) (b : VerInfo), b.rank = v.rank →
-      l.foldl (selStepL allowed) (some b) = some v → v = b := by
+  -- from `some x` on, the fold replaces the best only by entries of at least its rank: none in `post`
+  have key : ∀ (l : List VerInfo), (∀ u ∈ l, allowed.contains u.ver = true → u.rank < x.rank) →
+      l.foldl (selStepL allowed) (some x) = some x := by
     intro l
     induction l with
-    | nil => intro b _ hv; simp only [List.foldl_nil] at hv; cases hv; rfl
+    | nil => intro _; rfl
     | cons y r ih =>
-      intro b hbr hv
-      simp only [List.foldl_cons] at hv
+      intro hl
+      simp only [List.foldl_cons]
+      have hr' : ∀ u ∈ r, allowed.contains u.ver = true → u.rank < x.rank :=
+        fun u hu => hl u (List.mem_cons_of_mem _ hu)
       by_cases hy : allowed.contains y.ver = true
-      · by_cases hlt : b.rank < y.rank
-        · rw [selStepL_lt allowed b y hy hlt] at hv
-          have := (selFold_some allowed r (some y) v hv).2.1 y rfl
-          omega
-        · rw [selStepL_nlt allowed b y hy hlt] at hv
-          exact ih b hbr hv
-      · rw [selStepL_skip allowed (some b) y hy] at hv
-        exact ih b hbr hv
-  exact key post x hr h
+      · have hlt : ¬ x.rank ≤ y.rank := Nat.not_le_of_gt (hl y List.mem_cons_self hy)
+        rw [selStepL_nle allowed x y hy hlt]
+        exact ih hr'
+      · rw [selStepL_skip allowed (some x) y hy]
+        exact ih hr'
+  rw [key post hpost] at h
+  cases h
+  rfl
+
+/-- the tie rule pinned on the listing the differential lane found (`2.0.0`, `1.10.0`,
+`2.0.0+build.5`, all allowed): the real code and the model select `2.0.0+build.5` -/
+example : selectVersion [⟨"2.0.0".toList, 3, none⟩, ⟨"1.10.0".toList, 2, none⟩,
+      ⟨"2.0.0+build.5".toList, 3, none⟩]
+    ["2.0.0".toList, "1.10.0".toList, "2.0.0+build.5".toList]
+    = some ⟨"2.0.0+build.5".toList, 3, none⟩ := by decide
 
 /-! ## 2. the answer depends on the world and the request only
 
@@ -281,15 +298,16 @@ theorem C17_none_error_drain (w : World) (fuel : Nat) (st : BState) (ds : List D
   rw [← h]
 
 /-- **C17_deprecation.** When a version is resolved for the first time (cache miss on `resolved`),
-the deprecation recorded for `(package, selected version)` is that of the first listed entry whose
-rank equals the selected one's. -/
+the deprecation recorded for `(package, selected version)` is that of the first listed entry with
+exactly the selected version (after the repair F47: before it, the first entry of the same precedence,
+so that of two versions differing only in build metadata one got the other's note). -/
 theorem C17_deprecation (w : World) (st st' : BState) (src : RegSrc) (allowed : List VerS)
     (out : RemoteSrc) (vs : List VerInfo) (sel : VerInfo) (hc : CacheOK w st)
     (h : findRegistrySource w st src allowed = (st', some out))
     (hv : assoc w.versions src.pkg = some (some vs)) (hsel : selectVersion vs allowed = some sel)
     (hmiss : assoc st.resolved (src.pkg, sel.ver) = none) :
     assoc st'.deprec (src.pkg, sel.ver) =
-      some ((vs.find? (fun v => v.rank = sel.rank)).bind (·.deprecation)) := by
+      some ((vs.find? (fun v => v.ver = sel.ver)).bind (·.deprecation)) := by
   rw [findRegistrySource_eqL] at h
   split at h
   · cases h
@@ -309,17 +327,18 @@ theorem C17_deprecation (w : World) (st st' : BState) (src : RegSrc) (allowed : 
       · cases e2
         rw [assoc_cons_self]
         unfold frsDeprecation
-        cases vs.find? (fun v => v.rank = sel.rank) <;> rfl
+        cases vs.find? (fun v => v.ver = sel.ver) <;> rfl
       · cases e2
 
-/-- the first listed entry with the selected rank is the selected entry itself whenever ranks
-identify allowed versions, so the deprecation recorded is the selected version's own -/
+/-- the first listed entry with the selected version is the selected entry itself whenever the listing
+does not name one version twice with different notes, so the deprecation recorded is the selected
+version's own — also when several listed versions share a rank (differ only in build metadata) -/
 theorem C17_deprecation_own (vs : List VerInfo) (allowed : List VerS) (sel : VerInfo)
     (hsel : selectVersion vs allowed = some sel)
-    (hinj : ∀ u ∈ vs, u.rank = sel.rank → u = sel) :
-    (vs.find? (fun v => v.rank = sel.rank)).bind (·.deprecation) = sel.deprecation := by
+    (hinj : ∀ u ∈ vs, u.ver = sel.ver → u = sel) :
+    (vs.find? (fun v => v.ver = sel.ver)).bind (·.deprecation) = sel.deprecation := by
   have hm := (C17_newest _ _ _ hsel).1
-  cases hf : vs.find? (fun v => v.rank = sel.rank) with
+  cases hf : vs.find? (fun v => v.ver = sel.ver) with
   | none =>
     have := List.find?_eq_none.mp hf sel hm
     simp at this
@@ -369,13 +388,13 @@ example : (findRegistrySource exWorldL BState.init ⟨exReg, []⟩ ["1.0.0".toLi
 
 /-- **C17_cex_equal_ranks.** The rank hypothesis of `C17_order_irrelevant` is needed: two listed
 entries of equal rank (the same version printed two ways, say) make the result depend on the order —
-the first listed wins. -/
+the last listed wins (`C17_last_of_equal_rank`). -/
 theorem C17_cex_equal_ranks :
     let a : VerInfo := ⟨"1.0".toList, 0, none⟩
     let b : VerInfo := ⟨"1.0.0".toList, 0, none⟩
     let allowed := ["1.0".toList, "1.0.0".toList]
     List.Perm [b, a] [a, b] ∧
-      selectVersion [a, b] allowed = some a ∧ selectVersion [b, a] allowed = some b := by
+      selectVersion [a, b] allowed = some b ∧ selectVersion [b, a] allowed = some a := by
   refine ⟨List.Perm.swap _ _ _, by decide, by decide⟩
 
 end Slug
